@@ -44,7 +44,7 @@ def swarm(prop, r, tier):
         cfg["names"] = "markup"
     cfg["tables2d_general"] = R.pick([0.3, 0.6])
     cfg["inf_limits"] = R.chance(0.15)
-    cfg["via_file"] = R.pick([0.0, 0.0, 0.25])
+    cfg["via_file"] = R.pick([0.0, 0.0, 0.5])
     cfg["collapse_inputs"] = prop in ("C12", "C16", "C14", "C15") and R.chance(0.06)
     # the same numbers spelled as ints / numpy floats
     cfg["arg_forms"] = R.chance(0.06)
